@@ -6,6 +6,9 @@ props = [json.loads(l) for l in open('/verif/properties.jsonl')]
 
 # id -> (technique, level text, level note, design ref)
 claimed = {
+ "C03": ("AST field-coverage census (struct fields by *types.Var on SSA), type-switch exhaustiveness against parser-constructible node kinds, computed lossy-renderer set (who-may-print), optional-field nil discipline (parser must-assign dataflow + dominance), must-use of dequeued chunks",
+         "Structural necessary conditions: every node kind the parser builds is dispatched; every semantic field is read by a printer; nothing is printed through a lossy ast String(); literals come from the source token; grammar-optional fields are nil-tested before dereference; dequeued chunks are emitted. Holds for all programs and options at once; does not decide the text produced.",
+         "trusts go/ssa; exemption tables (option-normalised/derived fields, declaration-property kinds, listed lossy renderer) in c03.go with one reason each", "DESIGN.md §4 C03"),
  "C04": ("post-dominator control dependence + dominance on SSA (non-interference of counters, indicator tests before success return, severity case dominance, phi-constant exit path walk)",
          "Structural necessary conditions of the verdict: every success return of runLint is dominated by tests of all live failure indicators; counters/verdict are not control- or data-dependent on -json/-v/-vv; counters incremented under their own severity; ErrExit reaches os.Exit(non-zero). Decides control structure for all inputs, not printed numbers.",
          "trusts go/types + go/ssa (x/tools v0.50.0), my dominator/post-dominator code; assumes exit status only comes from os.Exit in cmd/falco.main", "DESIGN.md §4 C04"),
